@@ -23,6 +23,15 @@ TRUSTED = [
     "sorted(): ordered permutation; dict.values() in insertion order",
 ]
 ASSUMPTIONS = []
+def bounded(tier, seed, fallback_for):
+    from pyvc import driver
+    return [driver.run_harness(ID, "h_report.py", [ID, tier, str(seed)], "rendered-reports:" + ID,
+                               "11 hand-picked current/previous report pairs (0->n, n->0, language only in one report, equal totals with different rows, "
+                               "10/11/36 findings) + 40 random pairs (thorough 600) over 4 languages, each with/without --full and with/without repository",
+                               "the overview rows, totals row, order, findings and 'N more rows' parsed from the text and Markdown output of the real "
+                               "print functions are compared with figures computed from the inputs")]
+
+
 MANIFEST = {
     "category": "proof",
     "technique": "contract-based deductive verification: pyvc VCs from the real AST (ghost output trace, call-site obligations), z3/cvc5",
